@@ -33,10 +33,16 @@ def gen_config(rng, tier):
 
 def gen_tables(rng):
     cats = rng.sample(CATS, rng.randrange(1, 3))
+    if rng.random() < 0.3:
+        # older tables: category offsets in steps of 100, tracer numbers up to 150
+        cats = [(c, 100 * i) for i, (c, o) in enumerate(cats)]
+        ids = [1, 2, 57, 120, 150]
+    else:
+        ids = [1, 2, 3, 4, 5]
     tracers = []
     used = set()
     for cname, off in cats:
-        for tid in rng.sample([1, 2, 3, 4, 5], rng.randrange(1, 4)):
+        for tid in rng.sample(ids, rng.randrange(1, 4)):
             if (off + tid) in used:
                 continue
             used.add(off + tid)
@@ -182,7 +188,10 @@ def gen_op(rng, st):
         st.outn += 1
         ops.append({'op': kind, 'fid': fid,
                     'outdir': rng.choice(['fresh', 'fresh', 'same-tables', 'foreign-tables']),
-                    'out': 'out%d' % st.outn, 'sched': rng.choice(SCHEDULES)})
+                    'out': 'out%d' % st.outn, 'sched': rng.choice(SCHEDULES),
+                    # the file handed to the writer: the reader's object, or an
+                    # in-memory file derived from it (copy / identity slice)
+                    'via': rng.choice(['reader', 'reader', 'copy', 'slice'])})
         if rng.random() < 0.3:
             ops.append({'op': 'collect'})
     st.queue = ops
@@ -249,6 +258,10 @@ def _outdir(st, op, f):
     d = st.w.path(op['out'])
     os.makedirs(d, exist_ok=True)
     kind = op['outdir']
+    if op.get('via') in ('copy', 'slice') and kind == 'fresh':
+        # an in-memory file carries no handle on its tables: the user supplies
+        # them next to the output (the format's side-car convention)
+        kind = 'same-tables'
     if kind == 'same-tables':
         write_tables(f['spec']['tables'], d)
     elif kind == 'foreign-tables':
@@ -399,9 +412,27 @@ def apply(st, op):
         st.stats['write_reads'] += 1
         try:
             g = _open(f['path'])
+            if op.get('via') == 'copy':
+                g = g.copy()
+            elif op.get('via') == 'slice':
+                g = g.sliceDimensions(time=slice(None))
+            before = {k: np.array(v[...]) for k, v in g.variables.items()
+                      if hasattr(v, 'tracerid')} if op.get('via') in ('copy', 'slice') else None
             d = _outdir(st, op, f)
             out = os.path.join(d, 'wr.bpch')
             h = pncgen(g, out, format='bpch', verbose=0)
+            if before is not None:
+                # writing is a query: the in-memory source must be what it was
+                for k, a in before.items():
+                    b = np.array(g.variables[k][...])
+                    if a.tobytes() != b.tobytes():
+                        _viol(st, 'bpch-writer-modified-source',
+                              'after one write the %s source holds %r where it held %r (%s); %s' % (
+                                  op['via'], float(b.ravel()[0]), float(a.ravel()[0]), k, desc),
+                              via=op['via'])
+                        break
+        except Violation:
+            raise
         except BaseException as e:
             _viol(st, 'bpch-write-raised', '%s: %s: %s' % (desc, type(e).__name__, e),
                   error=type(e).__name__)
